@@ -237,7 +237,7 @@ class BA(Optimizer):
         # Iterate through all agents
         for i, agent in enumerate(agents):
             # Updating frequency
-            frequency[i] = self._update_frequency(self.f_min, self.f_max)
+            frequency[i] = self._update_frequency(self.f_min, self.f_max)[0]
 
             # Updating velocity
             velocity[i] = self._update_velocity(
